@@ -60,6 +60,54 @@ def gen_busy_package(rng, d, nfun=40):
     open(os.path.join(d, "busy", "c.go"), "w").write("package busy\n\n" + "\n".join(L[cut2:]) + "\n")
 
 
+def gen_heavy_contract_module(d, nfun=10, rounds=12):
+    """one module: package `all` with nfun branch-heavy contract candidates (one parameter, one result, ~2^8 nilness
+    tables per block over ~200 blocks each) and callers that are safe only thanks to the inferred contracts; packages
+    `one<i>` hold heavy<i> and its caller alone -- the result of analysing that function 'one at a time'"""
+    open(os.path.join(d, "go.mod"), "w").write("module ex.com/heavy\n\ngo 1.23\n")
+    head = ["type T struct{ a, b, c, d, e, f, g, h *int }", "", "func sink() {}", ""]
+
+    def fn(i):
+        L = ["func heavy%d(x *T) *T {" % i, "\tif x == nil {", "\t\treturn nil", "\t}",
+             "\ta, b, c, d, e, f, g, h := x.a, x.b, x.c, x.d, x.e, x.f, x.g, x.h"]
+        for _ in range(rounds):
+            for v in "abcdefgh":
+                L += ["\tif %s == nil {" % v, "\t\tsink()", "\t}"]
+        L += ["\treturn x", "}", "", "func use%d() *int {" % i, "\tr := heavy%d(&T{})" % i, "\treturn r.a", "}", ""]
+        return L
+    os.makedirs(os.path.join(d, "all"))
+    open(os.path.join(d, "all", "all.go"), "w").write("\n".join(["package all", ""] + head + [l for i in range(nfun) for l in fn(i)]) + "\n")
+    for i in range(nfun):
+        os.makedirs(os.path.join(d, "one%d" % i))
+        open(os.path.join(d, "one%d" % i, "one.go"), "w").write("\n".join(["package one%d" % i, ""] + head + fn(i)) + "\n")
+
+
+def together_equals_alone(d, nfun, runs=2):
+    """-> list of differences between the package that holds all functions and the packages that hold one each:
+    inferred contracts per function, and whether its caller is reported"""
+    bad = []
+    for _ in range(runs):
+        ctr = {}
+        rc, out, e = common.harness(["analyze", "-dir", d, "-triggers"], timeout=1800)
+        if rc != 0:
+            return ["run failed: %s" % e[-300:]]
+        rr = json.loads(out.strip().splitlines()[-1])
+        for c in rr.get("contracts") or []:
+            ctr[(c["pkg"].split("/")[-1], c["func"].split(".")[-1])] = c["text"]
+        rep = {}
+        for dg in rr.get("diags") or []:
+            rep.setdefault(dg["pkg"].split("/")[-1], []).append(dg["line"])
+        for i in range(nfun):
+            a, b = ctr.get(("all", "heavy%d" % i)), ctr.get(("one%d" % i, "heavy%d" % i))
+            if a != b:
+                bad.append("heavy%d: contract inferred among its %d siblings %r, alone %r" % (i, nfun - 1, a, b))
+        if bool(rep.get("all")) != any(rep.get("one%d" % i) for i in range(nfun)):
+            bad.append("callers reported in package all: %r, in the single-function packages: %r" % (rep.get("all"), {k: v for k, v in rep.items() if k != "all"}))
+        if bad:
+            break
+    return bad
+
+
 def modules(ctx, rng, n_gen):
     mods = [(os.path.join(common.VERIF, "corpus", "c10"), False), (os.path.join(common.VERIF, "corpus", "c15"), False)]
     for m in ("m3", "m9", "m9b", "m5", "m10"):
